@@ -314,4 +314,11 @@ def offTable (off : Nat) : List (List Nat) → List Nat
 /-- encoding of a dynamic list of byte lists: offset table, then the items -/
 def encodeDyn (items : List (List Nat)) : List Nat := offTable (4 * items.length) items ++ items.flatten
 
+/-- `qbft.Message.MarshalSSZTo` -/
+def encodeQMsg (m : QMsg) : List Nat :=
+  let o6 := qmsgFixed + m.identifier.length
+  let o7 := o6 + (encodeDyn m.rcj).length
+  leBytes 8 m.msgType ++ leBytes 8 m.height ++ leBytes 8 m.round ++ leBytes 4 qmsgFixed ++ m.root ++ leBytes 8 m.dataRound ++
+    leBytes 4 o6 ++ leBytes 4 o7 ++ m.identifier ++ encodeDyn m.rcj ++ encodeDyn m.pj
+
 end Ssv.Ssz
